@@ -180,6 +180,58 @@ def job_relation(kind, n, tier):
             detr = [F[0][i] - Sym(TR(X[0][i].e, X[1][i].e)) for i in range(n)]
             return est(P0(), F0(), mean=cst, trend=trend), est(P0(), detr)
 
+    elif kind == "no_data_trend":
+        # no-data entries are recognised on the caller's raw values, before mean / trend are removed
+        miss, ND = 1, -999.0
+        keep = [i for i in range(n) if i != miss]
+        TR = z3.Function("trend_fn", z3.RealSort(), z3.RealSort(), z3.RealSort())
+
+        def trend(x, y):
+            x, y = rnp.asarray(x, dtype=object).reshape(-1), rnp.asarray(y, dtype=object).reshape(-1)
+            o = rnp.empty(x.shape, dtype=object)
+            for i in range(o.size):
+                o[i] = Sym(TR(lift(x[i]), lift(y[i])))
+            return o
+
+        def run():
+            _assume_edges(B)
+            fl = list(F[0])
+            fl[miss] = ND
+            for f in F[0]:
+                sym.assume(abs(f - ND) > 1e-8 + 1e-5 * abs(ND))
+            detr = [F[0][i] - Sym(TR(X[0][i].e, X[1][i].e)) for i in keep]
+            return est(P0(), fl, no_data=ND, mean=cst, trend=trend), est([[X[a][i] for i in keep] for a in range(dim)], detr)
+
+    elif kind == "latlon_autobins":
+        # automatic binning with a length unit: standard_bins (stubbed: returns arbitrary increasing edges in geo_scale units)
+        # -> the kernel must receive these edges in radians, the caller the mid-points in geo_scale units
+
+        def run():
+            _assume_edges(B)
+            sym.assume(R > 0)
+            recd = c08.Recorder()
+            vv.unstructured_c = recd.wrap("unstructured", vario.unstructured)
+            seen = []
+            orig_sb = vv.standard_bins
+
+            def fake_bins(pos=None, dim=2, latlon=False, mesh_type="unstructured", bin_no=None, max_dist=None, geo_scale=1.0, **kw):
+                seen.append((latlon, geo_scale))
+                return rnp.array(list(B), dtype=object)
+
+            vv.standard_bins = fake_bins
+            try:
+                a = vv.vario_estimate(P0(), F0(), latlon=True, geo_scale=R, return_counts=True)
+            finally:
+                vv.standard_bins = orig_sb
+            b = vv.vario_estimate(P0(), F0(), [B[i] / R for i in range(3)], latlon=True, return_counts=True)
+            vario.install_variogram_stubs()
+            ea, eb = recd.calls[0][1][1], recd.calls[1][1][1]
+            if len(seen) != 1 or seen[0][0] is not True or seen[0][1] is not R:
+                raise AssertionError(f"standard_bins not called with latlon=True and the caller's geo_scale: {seen}")
+            a = (a[0], list(a[1]) + [ea[i] for i in range(3)] + [a[0][i] for i in range(2)], list(a[2]) + [0, 0, 0, 0, 0])
+            b = (b[0], list(b[1]) + [eb[i] for i in range(3)] + [(B[i] + B[i + 1]) / 2 for i in range(2)], list(b[2]) + [0, 0, 0, 0, 0])
+            return a, b
+
     elif kind == "latlon_units":
 
         def run():
@@ -334,7 +386,7 @@ def job_sampling(tier):
     return out
 
 
-KINDS = ["permutation", "translation", "rotation", "field_shift", "field_scale_pos", "field_scale_neg", "mask", "nan", "no_data", "mean_trend", "latlon_units", "structured"]
+KINDS = ["permutation", "translation", "rotation", "field_shift", "field_scale_pos", "field_scale_neg", "mask", "nan", "no_data", "mean_trend", "no_data_trend", "latlon_units", "latlon_autobins", "structured"]
 
 
 def jobs(tier, seed):
@@ -406,6 +458,35 @@ def replay_relation(inputs):
     elif kind == "mean_trend":
         tr = lambda x, y: 0.3 * x - 0.2 * y * y
         a, b = est(X, F[0], mean=cst, trend=tr), est(X, F[0] - tr(X[0], X[1]))
+    elif kind == "no_data_trend":
+        miss = 1
+        keep = [i for i in range(n) if i != miss]
+        if np.any(np.isclose(F, -999.0)):
+            return True, "precondition"
+        tr = lambda x, y: 0.3 * x - 0.2 * y * y
+        bad = []
+        # the witness trend values are those of an uninterpreted function: the relation is re-checked with concrete trends,
+        # among them one that maps a genuine datum onto the no-data marker after detrending
+        for trf in (tr, lambda x, y: np.where(np.arange(len(x)) == 0, F[0][0] + 999.0, 0.1 * x), lambda x, y: 0.0 * x):
+            fl = F[0].copy()
+            fl[miss] = -999.0
+            a, b = est(X, fl, no_data=-999.0, mean=cst, trend=trf), est(X[:, keep], (F[0] - trf(X[0], X[1]))[keep])
+            if not (np.allclose(np.asarray(a[1], dtype=float), np.asarray(b[1], dtype=float), **tol) and list(a[2]) == list(b[2])):
+                bad.append(f"a={np.asarray(a[1]).tolist()},{list(a[2])} b={np.asarray(b[1]).tolist()},{list(b[2])}")
+        return (not bad), f"kind={kind} X={X.tolist()} F={F[0].tolist()} B={B} (no_data + mean + trend) vs (point removed, detrended): {bad}"
+    elif kind == "latlon_autobins":
+        from gstools.variogram import variogram as vvm
+
+        LL = np.array([[10.0, -35.0, 60.0, 5.0][:n], [20.0, 170.0, -100.0, 75.0][:n]])
+        Fg = np.array([0.3, -1.1, 2.0, 0.7][:n])
+        bad = []
+        for kwb in ({}, {"bin_no": 3}, {"max_dist": 2.0 * R}):
+            a = gs.vario_estimate(LL, Fg, latlon=True, geo_scale=R, return_counts=True, **kwb)
+            edges = vvm.standard_bins(LL, dim=2, latlon=True, geo_scale=R, **kwb)
+            b = gs.vario_estimate(LL, Fg, edges / R, latlon=True, return_counts=True)
+            if not (np.allclose(a[1], b[1], **tol) and list(a[2]) == list(b[2]) and np.allclose(a[0], (edges[:-1] + edges[1:]) / 2)):
+                bad.append(f"{kwb}: automatic bins {np.asarray(a[1]).tolist()} {list(a[2])} != the same edges given in radians {np.asarray(b[1]).tolist()} {list(b[2])}")
+        return (not bad), f"geo_scale={R} {bad}"
     elif kind == "latlon_units":
         # generic, well separated points (the relation is about units, not about the witness geometry);
         # checked for the witness edges and for edges that bracket the actual great-circle distances
